@@ -386,7 +386,9 @@ def check(run, prog, tier):
             ends_here = blk.nr or any(m.get("k") == "Call" and m.get("nr") for e in blk.el[i + 1:] for m in walk(e, True))
             reach_exit = False
             if not ends_here:
-                reach_exit = f.exit in cfgq.reach_set(f, [s for s in blk.live_succ()])
+                # fatal() never returns (it is not declared noreturn, so the CFG has an edge out of it)
+                dead_ends = {b2.id for b2, i2, n2 in f.calls("fatal")} | {x for x in f.reachable() if f.blocks[x].nr}
+                reach_exit = f.exit in cfgq.reach_set(f, [s for s in blk.live_succ()], avoid_blocks=dead_ends)
             # instance key without a per-function ordinal for macro-expanded sites (CHECK_STACK ...): use the enclosing label
             label = ""
             if f.name == "eval_instruction":
